@@ -126,8 +126,15 @@ func c14Record(tier string, seed int64, emit func(interface{})) {
 		for i := range b {
 			b[i] = alpha[rng.Intn(len(alpha))]
 		}
+		if m >= 8 && rng.Intn(8) == 0 { // text outside ASCII (the format is UTF-8)
+			return string(b) + []string{"é", "µ", "日本", "Ω", "ß"}[rng.Intn(5)]
+		}
+		if m >= 20 && rng.Intn(40) == 0 { // one very long value: beyond any fixed line buffer
+			return string(b) + strings.Repeat("x", 70000+rng.Intn(30000))
+		}
 		return string(b)
 	}
+	var pending []func()
 	for i := 0; i < n; i++ {
 		ln := 1 + rng.Intn(5000)
 		switch rng.Intn(4) {
@@ -199,15 +206,25 @@ func c14Record(tier string, seed int64, emit func(interface{})) {
 				text = gff.Build(seq)
 			}
 		}()
-		parsed, perr := safeGffParse(text)
-		if perr != "" && panicMsg == "" {
-			panicMsg = "Parse: " + perr
+		// the text is looked at only after the NEXT two records have been built: a result handed out by Build is a
+		// value of its own, whatever later calls do
+		pending = append(pending, func() {
+			parsed, perr := safeGffParse(text)
+			if perr != "" && panicMsg == "" {
+				panicMsg = "Parse: " + perr
+			}
+			if parsed.Feats == nil {
+				parsed.Feats = []gffFeat{}
+			}
+			lines := strings.Split(strings.TrimSuffix(string(text), "\n"), "\n")
+			emit(map[string]interface{}{"rec": rec, "lines": lines, "parsed": parsed, "panic": panicMsg})
+		})
+		if len(pending) == 3 || i == n-1 {
+			for _, f := range pending {
+				f()
+			}
+			pending = nil
 		}
-		if parsed.Feats == nil {
-			parsed.Feats = []gffFeat{}
-		}
-		lines := strings.Split(strings.TrimSuffix(string(text), "\n"), "\n")
-		emit(map[string]interface{}{"rec": rec, "lines": lines, "parsed": parsed, "panic": panicMsg})
 	}
 }
 
